@@ -234,8 +234,6 @@ class PatchesFromEd(Contract):
                     "0 <= it0 and it0 <= len(source)",
                     "ed_ok(source, it0) == ed_ok(source, 0)",
                     "yields + ed_patches(source, it0) == ed_patches(source, 0)",
-                    "ed_ok(source, it0) == ed_ok_step(source, it0)",
-                    "ed_patches(source, it0) == ed_patches_step(source, it0)",
                     "patch_re is None or patch_re is CMD_RE(source)",
                 ),
                 index="it0",
@@ -247,7 +245,6 @@ class PatchesFromEd(Contract):
                     "blk0 <= it1 and it1 <= len(source)",
                     "lines == source[blk0:it1]",
                     "ed_block_end(source, blk0) == ed_block_end(source, it1)",
-                    "ed_block_end(source, it1) == ed_block_end_step(source, it1)",
                     "law_slice_extend(source, blk0, it1)",
                 ),
                 index="it1", entry={"blk0": "it1"},
@@ -273,8 +270,7 @@ class PatchLines(Contract):
         self.kind = kind
         self.loops = {0: LoopSpec(
             invariants=("0 <= pi and pi <= len(patches)",
-                        "ed_fold(lines, patches, pi) == ed_fold(old(lines), patches, 0)",
-                        "ed_fold(lines, patches, pi) == ed_fold_step(lines, patches, pi)"),
+                        "ed_fold(lines, patches, pi) == ed_fold(old(lines), patches, 0)"),
             index="pi", var_types={"first": "int", "last": "int", "args": ("list", kind)})}
         self.T = world.TRIPLE
 
